@@ -1,6 +1,7 @@
 package crypki
 
 //vsym:pkg github.com/theparanoids/ysshra/crypki
+//vsym:include crypki/ctor.go || crypki/ctor_bb.go
 //vsym:entry H17_failover
 //vsym:model google.golang.org/grpc.NewClient m17NewClient
 //vsym:model (*google.golang.org/grpc.ClientConn).Close m17ConnClose
@@ -62,7 +63,7 @@ func (k *m17Key) Verify(d []byte, s *ssh.Signature) error  { return nil }
 
 func m17Index(target string) int {
 	for i := range s17Script {
-		if target == fmt.Sprintf("passthrough:///e%d", i) {
+		if target == sgTarget(fmt.Sprintf("passthrough:///e%d", i)) {
 			return i
 		}
 	}
@@ -240,6 +241,9 @@ func H17_failover() {
 	}
 	n := vChoose(maxEp+1, "endpoints")
 	var eps []string
+	if n == 0 && vChoose(2, "empty-list-not-nil") == 1 {
+		eps = []string{} // "crypki_endpoints": []
+	}
 	firstOK := -1
 	for i := 0; i < n; i++ {
 		e := s17Endpoint{outcome: vChoose(5, "outcome")}
@@ -265,7 +269,7 @@ func H17_failover() {
 	}
 	m17Req = req
 	s17ReqSnap = pb.SSHCertificateSigningRequest{KeyMeta: &pb.KeyMeta{Identifier: "id"}, Principals: []string{"user"}, PublicKey: "pk", Validity: 3600, KeyId: "kid"}
-	s := &Signer{endpoints: eps}
+	var nativeOpts []grpc.DialOption
 	ctx := context.Background()
 	ctxDone := vChoose(2, "context-already-done") == 1
 	if ctxDone {
@@ -274,12 +278,14 @@ func H17_failover() {
 	if vIsNative() {
 		opts, stop := n17Start()
 		defer stop()
-		s.dialOptions = opts
+		nativeOpts = opts
 		m17Req = nil
 		var cancel func()
 		ctx, cancel = context.WithTimeout(ctx, 20*time.Second)
 		defer cancel()
 	}
+
+	s := sgNewSigner(eps, nativeOpts)
 
 	// two calls on the same signer: the order is the configured one every time
 	for round := 0; round < 2; round++ {
